@@ -2127,7 +2127,9 @@ impl Value {
                     }
                 }
 
-                bytes.into()
+                // The result is a new array: it is not sorted like the argument
+                // and does not have its map keys
+                Array::new(bytes.shape, bytes.data).into()
             }
             from => fallback(self, &from, env)?,
         })
